@@ -61,8 +61,8 @@ theorem formattedSizeDecimal_float (feats : Features) (f : Fmt) : formattedSizeD
     simp [h1, h2, h3] <;> decide
 
 theorem bufferSizeConst_ge (feats : Features) (f : Fmt) (fmt : Format) (o : WOpts) (h10 : fmt.mantissaRadix = 10) :
-    2 + sizeExp feats fmt o + sizeDigits 10 o ≤ bufferSizeConst feats f fmt o ∧ 64 ≤ bufferSizeConst feats f fmt o := by
-  unfold bufferSizeConst
+    2 + sizeExp feats fmt o + sizeDigits 10 o ≤ bufferSizeConstOld feats f fmt o ∧ 64 ≤ bufferSizeConstOld feats f fmt o := by
+  unfold bufferSizeConstOld
   simp only [h10, if_true, formattedSizeDecimal_float]
   omega
 
@@ -227,7 +227,7 @@ theorem need_le_bound (feats : Features) (f : Fmt) (fmt : Format) (o : WOpts) (d
     (h10 : fmt.mantissaRadix = 10) (her : (effFmt feats fmt).exponentRadix = 10) (hno : NumOpts o)
     (hds1 : 1 ≤ ds.length) (hdsn : ds.length ≤ mantNeed f) (hrange : -324 ≤ sci ∧ sci ≤ 308) (hS : S ≤ 1)
     (hsafe : SafeOpts feats f fmt o) :
-    S + needDec fmt feats f ds sci o ≤ bufferSizeConst feats f fmt o := by
+    S + needDec fmt feats f ds sci o ≤ bufferSizeConstOld feats f fmt o := by
   obtain ⟨hB, hB64⟩ := bufferSizeConst_ge feats f fmt o h10
   obtain ⟨hE5, hEbr, hEno⟩ := sizeExp_facts feats fmt o hno
   obtain ⟨hc1, hc2, hc3, hc4⟩ := truncateAndRound_length ds o hds1 hno.mx
